@@ -49,6 +49,9 @@ SetMaxI(S) == CHOOSE v \in S : \A u \in S : v >= u
 \* ------------------------------------------------------------- 2. algorithm
 \* All coordinates doubled (c2 = lo + hi = 2*centre, so min2 = c2 - w, max2 = c2 + w are integers).
 \* np.argsort on distinct keys: the permutation p with keys[p[1]] < keys[p[2]] < ...
+RECURSIVE EagerR(_, _)
+EagerR(s, k) == IF k = 0 THEN <<>> ELSE Append(EagerR(s, k - 1), s[k])
+Eager(s) == EagerR(s, Len(s))
 SortPerm(keys) == [i \in 1..Len(keys) |->
                      CHOOSE j \in 1..Len(keys) : Cardinality({k \in 1..Len(keys) : keys[k] < keys[j]}) = i - 1]
 Permute(s, p)  == [i \in 1..Len(s) |-> s[p[i]]]
@@ -62,15 +65,16 @@ Search(a, x, side) == IF side = "right" THEN CountLe(a, x) ELSE CountLt(a, x)
 \* normalised) | "stopexcl" (window save_start:save_stop) | "nowperm" (native widths stay in caller order)
 \* result: [k |-> "num", v |-> value, e2 |-> squared error] | [k |-> "zero"] (bin left at its initial 0)
 \*         | [k |-> "nan"] (0/0)
+\* (Eager: TLC keeps [i \in S |-> e] unevaluated and re-evaluates e on every access; a tuple is evaluated once)
 AlgBin(c2in, win, fin, ein, tb2, tw, v) ==
     LET n    == Len(c2in)
-        p    == SortPerm(c2in)
-        c2   == Permute(c2in, p)
-        w    == IF v = "nowperm" THEN win ELSE Permute(win, p)
-        f    == Permute(fin, p)
-        e    == Permute(ein, p)
-        mn   == [i \in 1..n |-> c2[i] - w[i]]
-        mx   == [i \in 1..n |-> c2[i] + w[i]]
+        p    == Eager(SortPerm(c2in))
+        c2   == Eager(Permute(c2in, p))
+        w    == Eager(IF v = "nowperm" THEN win ELSE Permute(win, p))
+        f    == Eager(Permute(fin, p))
+        e    == Eager(Permute(ein, p))
+        mn   == Eager([i \in 1..n |-> c2[i] - w[i]])
+        mx   == Eager([i \in 1..n |-> c2[i] + w[i]])
         tmin == tb2 - tw
         tmax == tb2 + tw
         side == IF v = "left" THEN "left" ELSE "right"
@@ -80,7 +84,7 @@ AlgBin(c2in, win, fin, ein, tb2, tw, v) ==
         en   == IMin(e0, n - 1)
         last == IF v = "stopexcl" THEN en - 1 ELSE en                        \* 0-based inclusive
         idx  == {i \in 1..n : i >= st + 1 /\ i <= last + 1}
-        wt   == [i \in 1..n |-> IF i \in idx THEN IMin(tmax, mx[i]) - IMax(mn[i], tmin) ELSE 0]
+        wt   == Eager([i \in 1..n |-> IF i \in idx THEN IMin(tmax, mx[i]) - IMax(mn[i], tmin) ELSE 0])
         sw   == ISum(wt)
         tot  == tmax - tmin
     IN  IF ~(tmin <= mx[st + 1]) \/ ~(mn[en + 1] <= tmax) THEN [k |-> "zero"]
